@@ -136,6 +136,10 @@ type blockOut struct {
 	Jail     *jailObs `json:"jail,omitempty"` // Extra twins, prune heights: PruneOldMessages observed on a discarded branch
 }
 
+func (b blockOut) String() string {
+	return fmt.Sprintf("{tx=%q events=%s state=%s queries=%s jailed=[%s]}", b.Tx, b.Events, b.Digest, b.Query, b.Jailed)
+}
+
 func (b blockOut) key() string {
 	return fmt.Sprintf("%d|%d|%s|%s|%s|%s|%s", b.I, b.Height, strings.Join(b.Tx, "\x1f"), b.Events, b.Digest, b.Query, b.Jailed)
 }
